@@ -22,6 +22,8 @@ func c03(r *core.Report) {
 	c03NullPresence(r)
 	c03RequiredKeys(r)
 	c03KeysVerbatim(r)
+	c03EveryKey(r)
+	c03LoaderWrites(r)
 	r.Assumption("values survive encoding/json, the YAML reader/writer and custom scalar codecs (Types, AdditionalProperties): not decided")
 
 	type tyinfo struct {
